@@ -79,6 +79,7 @@ func (s *state) resolveCallee(d ssa.CallInstruction, strict bool) (*ssa.Function
 
 func (e *engine) immutableInit(g *ssa.Global) (ssa.Value, bool) {
 	if e.immInit == nil {
+		e.computeArrayInits()
 		e.immInit = map[*ssa.Global]ssa.Value{}
 		stores := map[*ssa.Global]int{}
 		addrTaken := map[*ssa.Global]bool{}
@@ -97,6 +98,9 @@ func (e *engine) immutableInit(g *ssa.Global) (ssa.Value, bool) {
 					// any other use of the global's address than a load makes it mutable
 					for _, op := range in.Operands(nil) {
 						if g, ok := (*op).(*ssa.Global); ok {
+							if _, isIdx := in.(*ssa.IndexAddr); isIdx {
+								continue // element addresses are tracked by computeArrayInits
+							}
 							if un, ok := in.(*ssa.UnOp); ok && un.Op == token.MUL {
 								continue
 							}
@@ -170,7 +174,7 @@ func (s *state) doCall(b *ssa.BasicBlock, ii int, d *ssa.Call) bool {
 	}
 	wantInline := callee != nil && u.ct != nil && u.ct.inline[funcKey(callee)]
 	if fc != nil && !wantInline {
-		s.vals[d] = s.applyContract(fc, callee, args, d)
+		s.vals[d] = s.applyContract(fc, callee, args, d, d.Type())
 		s.runSite(b.Parent(), fmt.Sprintf("after call %s %d", cs.name, cs.k), d.Pos(), nil)
 		if fc.neverReturns {
 			s.endPath()
@@ -243,6 +247,20 @@ func (s *state) doReturn(rs []Val, d *ssa.Return) {
 		return
 	}
 	// postconditions of the unit
+	if len(u.ct.rawParams) > 0 {
+		names := u.ct.resultNames(u.fn)
+		for i := range rs {
+			if i < len(names) && u.ct.rawParams[names[i]] && len(rs[i].S) >= 2 {
+				switch {
+				case isRawRef(rs[i].S[0]):
+				case rs[i].S[0] == "0": // typed nil: the raw nil pointer
+					rs[i] = Val{T: rs[i].T, S: append([]string{rawRef, u.m.offConst(0)}, rs[i].S[2:]...)}
+				default:
+					panic(engineErr("result " + names[i] + " is declared raw but a typed pointer is returned"))
+				}
+			}
+		}
+	}
 	e := s.contractEnv(u.ct, u.fn, s.entryArgs(), rs)
 	e.useNames = false
 	site := fmt.Sprintf("ret%d", u.returnOrd(d))
@@ -285,7 +303,7 @@ func (u *unit) returnOrd(d *ssa.Return) int {
 }
 
 // applyContract: assert requires, havoc modifies, assume ensures
-func (s *state) applyContract(fc *funcContract, callee *ssa.Function, args []Val, d *ssa.Call) Val {
+func (s *state) applyContract(fc *funcContract, callee *ssa.Function, args []Val, d ssa.Instruction, rt types.Type) Val {
 	u := s.u
 	what := fc.key
 	for i := range args {
@@ -354,10 +372,6 @@ func (s *state) applyContract(fc *funcContract, callee *ssa.Function, args []Val
 		s.storeAt(t, p.S[0], p.S[1], p.Fld, s.symValNoFacts("mod_"+what, t))
 	}
 	// results
-	var rt types.Type
-	if d != nil {
-		rt = d.Type()
-	}
 	var results []Val
 	var flat []string
 	if tup, ok := rt.(*types.Tuple); ok {
@@ -370,6 +384,19 @@ func (s *state) applyContract(fc *funcContract, callee *ssa.Function, args []Val
 		r := s.symVal("ret_"+what, rt)
 		results = append(results, r)
 		flat = r.S
+	}
+	// results declared raw (integer-made pointers)
+	if len(fc.rawParams) > 0 {
+		names := fc.resultNames(callee)
+		k := 0
+		for i := range results {
+			n := len(results[i].S)
+			if i < len(names) && fc.rawParams[names[i]] && n >= 2 {
+				results[i].S[0] = rawRef
+				flat[k] = rawRef
+			}
+			k += n
+		}
 	}
 	pe := s.contractEnv(fc, callee, args, results)
 	pe.old = pre
@@ -643,4 +670,89 @@ func (s *state) isKnownFunc(v Val) bool {
 		return s.u.eng.funcByID[int(n)] != nil
 	}
 	return false
+}
+
+// computeArrayInits: package-level arrays whose elements are only ever
+// written by constant stores in the package initialiser
+func (e *engine) computeArrayInits() {
+	e.arrInit = map[*ssa.Global]map[int64]*ssa.Const{}
+	bad := map[*ssa.Global]bool{}
+	for f := range ssautil.AllFunctions(e.prog) {
+		for _, b := range f.Blocks {
+			for _, in := range b.Instrs {
+				ia, ok := in.(*ssa.IndexAddr)
+				if !ok {
+					// any non-IndexAddr, non-load use of an array global makes it mutable
+					for _, op := range in.Operands(nil) {
+						if g, ok := (*op).(*ssa.Global); ok {
+							if _, isArr := g.Type().Underlying().(*types.Pointer).Elem().Underlying().(*types.Array); isArr {
+								if un, ok := in.(*ssa.UnOp); ok && un.Op == token.MUL {
+									continue
+								}
+								if _, ok := in.(*ssa.DebugRef); ok {
+									continue
+								}
+								bad[g] = true
+							}
+						}
+					}
+					continue
+				}
+				g, ok := ia.X.(*ssa.Global)
+				if !ok {
+					continue
+				}
+				for _, ref := range *ia.Referrers() {
+					switch r := ref.(type) {
+					case *ssa.UnOp:
+						if r.Op != token.MUL {
+							bad[g] = true
+						}
+					case *ssa.DebugRef:
+					case *ssa.Store:
+						c, isConst := r.Val.(*ssa.Const)
+						idx, idxConst := ia.Index.(*ssa.Const)
+						if r.Addr != ia || !isConst || !idxConst || f.Name() != "init" || f.Pkg != g.Pkg {
+							bad[g] = true
+							continue
+						}
+						if e.arrInit[g] == nil {
+							e.arrInit[g] = map[int64]*ssa.Const{}
+						}
+						e.arrInit[g][idx.Int64()] = c
+					default:
+						bad[g] = true
+					}
+				}
+			}
+		}
+	}
+	for g := range bad {
+		delete(e.arrInit, g)
+	}
+}
+
+func (fc *funcContract) resultNames(fn *ssa.Function) []string {
+	var names []string
+	if fc.decl != nil && fc.decl.Type.Results != nil {
+		for _, f := range fc.decl.Type.Results.List {
+			if len(f.Names) == 0 {
+				names = append(names, "")
+			}
+			for _, n := range f.Names {
+				names = append(names, n.Name)
+			}
+		}
+	}
+	if fn != nil {
+		rs := fn.Signature.Results()
+		for i := 0; i < rs.Len(); i++ {
+			if i >= len(names) {
+				names = append(names, rs.At(i).Name())
+			} else if names[i] == "" {
+				names[i] = rs.At(i).Name()
+			}
+		}
+	}
+	return names
 }
